@@ -115,6 +115,36 @@ func runC15(r *Run) {
 				crossed = append(crossed, c+"<-"+g)
 			}
 		}
+		// ... unconditionally: a stamp that is skipped when the field already holds something leaves whatever the
+		// reader of the batch files put there
+		var conditional []string
+		for _, b := range f.Blocks {
+			for _, ins := range b.Instrs {
+				st, ok := ins.(*ssa.Store)
+				if !ok {
+					continue
+				}
+				fa, ok := st.Addr.(*ssa.FieldAddr)
+				if !ok {
+					continue
+				}
+				dn, _ := namedStruct(fa.X.Type())
+				if dn == nil || !types.Identical(dn, opT) {
+					continue
+				}
+				if _, isCommon := cp[fieldName(fa)]; !isCommon {
+					continue
+				}
+				for _, rb := range f.Blocks {
+					if _, isRet := rb.Instrs[len(rb.Instrs)-1].(*ssa.Return); isRet && !b.Dominates(rb) {
+						conditional = append(conditional, fieldName(fa)+" (at "+r.P.Pos(st.Pos())+")")
+					}
+				}
+			}
+		}
+		r.R.Check(len(conditional) == 0, P+".stamp.unconditional", "E8 dominance: every stamping store is executed on all paths through the stamping function", core.FuncName(f), r.where(f),
+			"a coordinate that is only stamped when the field is still empty keeps the value an earlier stage wrote (e.g. the provider's own protocol version instead of the transaction's)",
+			"all stamping stores dominate the returns", "stamped only on some paths: "+strings.Join(dedupe(conditional), ", "))
 		r.R.Check(len(missing) == 0 && len(crossed) == 0, P+".stamp", "E5 src→dst (row SidetreeTxn→AnchoredOperation): every same-named field is copied from the transaction",
 			core.FuncName(f), r.where(f),
 			"an operation stored without its transaction's canonical/equivalent references looks unpublished to the resolver (it then takes precedence rules meant for unpublished operations and has no version id); a missing time/number/version breaks ordering and parser selection",
@@ -316,6 +346,11 @@ func (r *Run) checkCompensate(P string) {
 		return
 	}
 	ff := r.E.Facts(po, core.Ctx{})
+	// "an operation whose enqueueing fails leaves no trace in the batch queue": the writer does not report failure
+	// for an operation the queue has accepted (shared with C16)
+	if wa := r.fn(P, pkgBatch, "Writer.Add"); wa != nil {
+		r.checkEnqueueFinal(P, wa)
+	}
 	adds := r.effectSites(po, 3, "batchWriter.Add")
 	puts := r.effectSites(po, 3, "unpublishedOperationStore.Put")
 	dels := r.effectSites(po, 3, "unpublishedOperationStore.Delete")
